@@ -15,6 +15,9 @@ namespace RtenVerif.Layout
 open RtenVerif.Arr RtenVerif.Overlap
 open RtenVerif.Iter (rowMajor total rowMajor_one rowMajor_cons_congr rowMajor_length contig_rowMajor)
 
+/-! The lemmas live in `RtenVerif.Layout.Seq` (C09 has lemmas of the same short names). -/
+namespace Seq
+
 theorem indices_eq_idxs (d : Dims) : indices d = idxs (sizes d) := by
   induction d with
   | nil => rfl
@@ -116,5 +119,7 @@ theorem rowMajor_eraseIdx (d : Dims) (k : Nat) (hk : k < d.length) (h1 : (d.getD
   have := rowMajor_insertIdx (d.getD k (0, 0)).2 (d.eraseIdx k) k (by rw [List.length_eraseIdx]; split <;> omega)
   rw [hre] at this
   exact this.symm
+
+end Seq
 
 end RtenVerif.Layout
